@@ -362,6 +362,8 @@ def run_check(pid, tier, replay=None, keep=False):
     for part in spec["parts"]:
         if part.get("tier_only") and part["tier_only"] != tier:
             continue
+        if os.environ.get("VERIF_ONLY_PART") and part["name"] not in os.environ["VERIF_ONLY_PART"].split(","):
+            continue  # mutation tooling only: a registered check always runs every part
         binp, bdir = build_part(pid, part)
         recs, failed = run_part(pid, part, tier, binp, bdir, replay, seed)
         records += recs
